@@ -2,6 +2,7 @@
 """C12 — condition composition: ensembles and output-unit selection act column-wise.  Engine A.
 DESIGN.md section 7, C12."""
 import inspect
+import math
 import os
 import sys
 import warnings
@@ -166,6 +167,48 @@ def run_cases(ck, res, n_cases, n_interval):
                 ck.add_case(('unit', kk, m, unit))
                 if tuple(got.shape) != tuple(exp.shape) or not torch.allclose(got, exp, rtol=1e-12, atol=1e-12):
                     ck.fail('ith_unit/wrong-column', f'ith_unit={unit}: enforce differs from parameterize(output column {unit})', {'in': m, 'out': kk, 'unit': unit})
+    # ---- (3b) output-unit selection through EVERY network-calling path of the library (BaseCondition.enforce, the private
+    #      ANN closures of IBVP1D / DoubleEndedBVP1D, pde._network_output_2input of CustomBoundaryCondition): a condition
+    #      imposed on unit i of a shared network equals the same condition on a network that outputs column i alone
+    from neurodiffeq import pde as PDE
+
+    def unit_conditions():
+        x0, t0 = dy(r, -1, 1), dy(r, -1, 1)
+        pp = [Probe(1, r, nterms=1, kinds=('one', 'pow')) for _ in range(4)]
+        yield 'IBVP1D_dd', 2, lambda: C.IBVP1D(x_min=x0, x_max=x0 + 1.5, t_min=t0, t_min_val=lambda x: pp[0].torch(x),
+                                               x_min_val=lambda t: pp[1].torch(t), x_max_val=lambda t: pp[2].torch(t))
+        yield 'IBVP1D_nn', 2, lambda: C.IBVP1D(x_min=x0, x_max=x0 + 1.5, t_min=t0, t_min_val=lambda x: pp[0].torch(x),
+                                               x_min_prime=lambda t: pp[1].torch(t), x_max_prime=lambda t: pp[2].torch(t))
+        yield 'DoubleEndedBVP1D_dn', 1, lambda: C.DoubleEndedBVP1D(x_min=x0, x_max=x0 + 1.25, x_min_val=0.5, x_max_prime=-0.75)
+        yield 'DirichletBVP2D', 2, lambda: C.DirichletBVP2D(x_min=x0, x_min_val=lambda y: pp[0].torch(y), x_max=x0 + 1.5, x_max_val=lambda y: pp[1].torch(y),
+                                                           y_min=t0, y_min_val=lambda x: pp[2].torch(x), y_max=t0 + 2.0, y_max_val=lambda x: pp[3].torch(x))
+        fa = Probe(2, r, nterms=1, kinds=('one', 'sin'))
+        yield 'DirichletBVPSpherical', 3, lambda: C.DirichletBVPSpherical(r_0=0.5, f=lambda a, b: fa.torch(a, b), r_1=2.0, g=lambda a, b: 2 * fa.torch(a, b))
+        locs = [(math.cos(a) * 1.5, math.sin(a)) for a in (0.3, 1.7, 3.0, 4.4, 5.6)]
+        vals = [dy(r, -2, 2) for _ in locs]
+        yield 'CustomBoundaryCondition', 2, lambda: PDE.CustomBoundaryCondition(center_point=PDE.Point((0.0, 0.0)),
+                                                                               dirichlet_control_points=[PDE.DirichletControlPoint(loc=l, val=v) for l, v in zip(locs, vals)])
+    for rep in range(2 if n_cases > 200 else 1):
+        for cname, m, mkc in unit_conditions():
+            kk = r.randint(2, 4)
+            cols = [Probe(m, r, nterms=2) for _ in range(kk)]
+            shared = make_net(cols)
+            nrows = r.choice([2, 3, 5])
+            X = [enga.col(torch, [dy(r, 0.6, 1.9, 4) if (m == 3 and j == 0) else dy(r, -0.9, 0.9, 4) for _ in range(nrows)]) for j in range(m)]
+            for unit in range(kk):
+                ck.add_case(('unit-path', cname, kk, unit, rep))
+                try:
+                    with warnings.catch_warnings():
+                        warnings.simplefilter('ignore')
+                        c_sel = mkc(); c_sel.set_impose_on(unit)
+                        got = c_sel.enforce(shared, *X)
+                        exp = mkc().enforce(make_net([cols[unit]]), *X)
+                except Exception as e:
+                    ck.fail(f'ith_unit/{cname}/raises', f'{cname} with set_impose_on({unit}) raised {type(e).__name__}: {e}', {'class': cname, 'outputs': kk, 'unit': unit})
+                    continue
+                if tuple(got.shape) != tuple(exp.shape) or not torch.allclose(got, exp, rtol=1e-11, atol=1e-11):
+                    ck.fail(f'ith_unit/{cname}/wrong-column', f'{cname} imposed on unit {unit} of a {kk}-output network differs from the same condition on that column alone',
+                            {'class': cname, 'outputs': kk, 'unit': unit, 'rows': nrows, 'net': [c.describe() for c in cols]})
     # ---- (4) the constructor's override test on the real classes
     for name, cls in inspect.getmembers(C, inspect.isclass):
         if not issubclass(cls, C.BaseCondition) or cls is C.BaseCondition:
